@@ -98,7 +98,7 @@ class Check:
         rc = 0
         unlisted = 0
         known_cases = 0
-        rdir = os.path.join(VERIF, 'replays', self.pid)
+        rdir = os.path.join(VERIF, 'replays', self.pid) if os.path.realpath(REPO) == '/repo' else os.path.join(WORK, 'replays_alt', self.pid)
         for key, items in self.viol.items():
             if key in known:
                 known_cases += len(items)
@@ -135,8 +135,10 @@ class Check:
         ev = {'property_id': self.pid, 'tier': self.tier, 'seed': self.seed, 'level': self.level,
               'coverage': cov, 'assumptions': self.assumptions, 'wall_s': round(time.time() - self.t0, 2),
               'violations': unlisted}
-        os.makedirs(os.path.join(VERIF, 'evidence'), exist_ok=True)
-        with open(os.path.join(VERIF, 'evidence', self.pid + '.json'), 'w') as f:
+        # evidence of runs against another checkout (seeded changes) never overwrites the real evidence
+        evdir = os.path.join(VERIF, 'evidence') if os.path.realpath(REPO) == '/repo' else os.path.join(WORK, 'evidence_alt')
+        os.makedirs(evdir, exist_ok=True)
+        with open(os.path.join(evdir, self.pid + '.json'), 'w') as f:
             json.dump(ev, f, indent=1, default=repr, sort_keys=True)
         print('%s tier=%s seed=%d: %d cases, %d distinct non-trivial, %d unlisted violations, %d known-finding cases, %d inconclusive, %.1fs' % (
             self.pid, self.tier, self.seed, self.evaluations, len(self.distinct), unlisted, known_cases, ninc, time.time() - self.t0))
@@ -212,6 +214,8 @@ def case_env(inject=None, extra=None):
         env[GUARD] = json.dumps(inject)
     else:
         env.pop(GUARD, None)
+    if os.path.realpath(REPO) != '/repo':
+        pp.append(REPO)      # checks run against another checkout of the library (seeded change in a scratch worktree)
     env['PYTHONPATH'] = os.pathsep.join(pp)
     env['PYTHONDONTWRITEBYTECODE'] = '1'
     env.setdefault('PYTHONHASHSEED', '0')
